@@ -144,7 +144,8 @@ def big_history(rng, idx, beam):
     cfg.update(decmatrix.BEAMS[beam])
     ws = [w for w in decmatrix.words_of_dict(dic) if w[0].isalpha() and w.isalnum()]
     g = "#JSGF V1.0;\ngrammar g;\npublic <s> = go <w>* meters;\n<w> = " + " | ".join(ws) + ";\n"
-    aud = rng.choice(["gf", "gf2"]) if beam == "default" else "gf"
+    # the doubled recording: the table passes 2^15 entries half way, so the best path itself runs through the upper half
+    aud = "gf2" if beam == "default" else "gf"
     s = list(decmatrix.audio_defs()) + ["init " + decmatrix.hx(json.dumps(cfg)), "jsgf " + decmatrix.hx(g), "start"]
     n, off = decmatrix.AUDIO_LEN[aud], 0
     while off < n:
